@@ -603,3 +603,30 @@ package dnsmsg
 //@     modifies b.buf, b.l
 //@     invariant 0 <= off && int(b.l) <= 253
 //@     decreases len(s) - off
+
+// ---- msg.go: EDNS0 helpers -----------------------------------------------------------------------
+
+//@ spec func isOPT(r Resource) bool = ptrOf(r, ResourceHdr).Type == TypeOPT
+//@ spec func noOPT(rs []Resource) bool = forall(k, 0, len(rs), !isOPT(rs[k]))
+//@ spec func atMostOneOPT(rs []Resource) bool = forall(j, 0, len(rs), forall(k, 0, len(rs), isOPT(rs[j]) && isOPT(rs[k]) ==> j == k))
+
+//@ func PopEDNS0(m *Msg) (r Resource)
+//@   props C01 C09 C12
+//@   requires m != nil && wfRecs(m.Additionals)
+//@   modifies m.Additionals, obj(m.Additionals)
+//@   ensures wfRecs(m.Additionals)
+//@   ensures [C12:none] r == nil ==> noOPT(m.Additionals) && m.Additionals == old(m.Additionals)
+//@   ensures [C12:popped] r != nil ==> dynNonNil(r) && isOPT(r) && len(m.Additionals) == old(len(m.Additionals)) - 1
+//@   ensures [C12:popped-member] r != nil ==> exists(k, 0, old(len(m.Additionals)), r == old(m.Additionals[k]))
+//@   ensures [C12:single] r != nil && old(atMostOneOPT(m.Additionals)) ==> noOPT(m.Additionals)
+//@   loop 1:
+//@     invariant -1 <= i && i <= end && end == len(m.Additionals) - 1
+//@     invariant forall(k, i+1, len(m.Additionals), !isOPT(m.Additionals[k]))
+//@     decreases i + 1
+
+//@ func RemoveEDNS0(m *Msg)
+//@   props C01 C12
+//@   requires m != nil && wfRecs(m.Additionals)
+//@   modifies *
+//@   ensures wfRecs(m.Additionals)
+//@   ensures [C12:single] old(atMostOneOPT(m.Additionals)) ==> noOPT(m.Additionals)
